@@ -370,3 +370,450 @@ def c17_runner(prop, tier, seed, replay):
 
 PROPS["C17"] = {"theorems": ["C17_head", "C17_nodup", "C17_shape", "C17_closed"], "runner": c17_runner, "min_closed": 4,
                 "assumptions": ["family: scheme and port bodies contain no ':' (otherwise the text 'h:' could start inside them)"]}
+
+
+# ---- twins: the same history on two indexes of the real implementation ------------------------------
+def _twin_worker(job):
+    seed, cfg = job
+    import session as S
+    rng = random.Random(seed)
+    mode = cfg["mode"]
+    prim = S.Session(rng, "f")
+    sec = None
+    out = {"seed": seed, "mismatches": [], "stats": {}, "ncmds": 0, "digest": 0, "nontrivial": True, "twin": []}
+    try:
+        focus = cfg["focus"]
+        prim.do(1, [rng.choice([0, 1]), []])
+        mixw = dict(G.DEFAULT_MIX)
+        if mode == "memory":
+            mixw["reopen"] = 0
+        elif mode == "reopen":
+            mixw["reopen"] = 25
+            mixw["clear"] = 0
+        elif mode == "clear":
+            mixw["reopen"] = 4
+        nw = cfg["nw"]
+        clear_at = rng.randint(2, nw - 3) if mode == "clear" else None
+        clear_cmd_index = None
+        for i in range(nw):
+            if i == clear_at:
+                d = rng.choice([0, 1])
+                rs = [[G.pick_prefix(rng, prim.tr), rng.choice([0, 1, 2, 3])] for _ in range(rng.randint(0, 2))]
+                rs = [x for k, x in enumerate(rs) if x[0] not in [y[0] for y in rs[:k]]]
+                prim.do(14, [d, rs])
+                clear_cmd_index = len(prim.cmds) - 1
+                continue
+            op, args = G.gen_write(rng, prim.tr, mixw)
+            prim.do(op, args)
+            if rng.random() < 0.25:
+                prim.observe(0, focus)
+        prim.observe(1, focus)
+        prim.do(43, [])
+        prim.do(44, [])
+        prim.do(45, [])
+        # ---- the twin ----
+        if mode == "memory":
+            sec = S.Session(random.Random(0), "m")
+            pairs = [(k, c) for k, c in enumerate(prim.cmds)]
+        elif mode == "reopen":
+            sec = S.Session(random.Random(0), "f")
+            pairs = [(k, c) for k, c in enumerate(prim.cmds) if c[0] != 13]
+        else:
+            sec = S.Session(random.Random(0), "f")
+            d, rs = prim.cmds[clear_cmd_index][1]
+            pairs = [(clear_cmd_index, (1, [d, rs]))] + [(k, c) for k, c in enumerate(prim.cmds) if k > clear_cmd_index]
+        for k, (op, args) in pairs:
+            b = sec.do(op, args)
+            a = prim.ians[k]
+            if op in (1, 13, 14):
+                continue
+            if not C.eq(C.canon(op, a), C.canon(op, b)):
+                out["twin"].append({"index": k, "op": op, "first": I.fmt(a)[:600], "twin": I.fmt(b)[:600],
+                                    "first_detail": getattr(a, "detail", None), "twin_detail": getattr(b, "detail", None)})
+                break
+        if mode != "memory":
+            for s_ in (prim, sec):
+                tb, lb = s_.impl.file_bytes("t"), s_.impl.file_bytes("l")
+                if len(tb) % 128 or len(lb) % 16:
+                    out["twin"].append({"index": -1, "op": 45, "first": "file sizes %d / %d are not whole blocks" % (len(tb), len(lb)), "twin": ""})
+        if mode == "memory" and not out["twin"]:
+            # the memory-mapped reader returns the same blocks as the file storage
+            st = prim.impl.t.lru_trie_storage
+            prim.impl.flush()
+            mm = st.map()
+            try:
+                size = len(prim.impl.file_bytes("t"))
+                for b in range(0, size + 256, 128):
+                    x, y = st.read(b), mm.read(b)
+                    if (x or None) != (bytes(y) if y else None):
+                        out["twin"].append({"index": -2, "op": 0, "first": "FileStorage.read(%d)" % b, "twin": "MemMapStorage.read differs"})
+                        break
+            finally:
+                mm.release()
+        # correspondence of the first index with the model
+        mm_ = prim.finish(bytes_facet=False)
+        for m in mm_:
+            j = m.to_json()
+            j["props"] = sorted(K.mismatch_props(m, prim.cmds)) + [cfg["prop"]]
+            out["mismatches"].append(j)
+        out["ncmds"] = len(prim.cmds) + len(pairs)
+        out["stats"] = dict(Counter("op%d" % c[0] for c in prim.cmds))
+        out["stats"]["mode_" + mode] = 1
+        out["digest"] = hash(tuple(K.ser_cmds([c for c in prim.cmds if c[0] in C.WRITE_OPS]))) & 0xFFFFFFFF
+        if out["twin"] or out["mismatches"]:
+            out["script"] = K.ser_cmds(prim.cmds)
+            out["metas"], out["groups"] = prim.meta, prim.groups
+        else:
+            out["sample"] = K.ser_cmds(prim.cmds[:10])
+        return out
+    except Exception as e:
+        import traceback
+        out["error"] = "%s: %s" % (type(e).__name__, e)
+        out["trace"] = traceback.format_exc()[-800:]
+        return out
+    finally:
+        prim.close()
+        if sec is not None:
+            sec.close()
+
+
+def twin_runner(modes, rule, extra=None):
+    def run(prop, tier, seed, replay):
+        n = 600 if tier == "thorough" else 48
+        jobs = []
+        for i in range(n):
+            jobs.append((seed * 100003 + i, {"mode": modes[i % len(modes)], "nw": 28 if tier == "thorough" else 20,
+                                             "focus": K.FACET_OPS[prop], "prop": prop}))
+        results = pool_map(_twin_worker, jobs)
+        violations = []
+        for r in results:
+            if r.get("error"):
+                violations.append({"property": prop, "failing_input": False, "broken": "harness error: " + r["error"],
+                                   "trace": r.get("trace"), "seed": r["seed"]})
+                break
+        for r in results:
+            if r["twin"]:
+                t = r["twin"][0]
+                violations.append({"property": prop, "failing_input": True, "seed": r["seed"],
+                                   "what": "the two indexes of the real implementation diverge at command %d (opcode %d)" % (t["index"], t["op"]),
+                                   "divergence": t, "script": r["script"], "metas": r.get("metas"), "groups": r.get("groups")})
+                break
+        if not violations:
+            v, k = classify(prop, results, seed)
+            violations += v
+        cov = coverage(results, rule)
+        known = []
+        if extra:
+            ev, ecov = extra(prop, tier, seed)
+            violations += ev
+            cov.update(ecov)
+        return {"violations": violations[:4], "known": known, "cov": cov}
+    return run
+
+
+def storage_machines(prop, tier, seed):
+    """random disciplined op sequences on the real FileStorage / MemoryStorage and on the two Coq machines"""
+    import sys
+    import tempfile
+    rng = random.Random(seed + 7)
+    FS = sys.modules.get("traph.storage") or __import__("traph.storage").storage
+    n = 400 if tier == "thorough" else 60
+    viol, cases = [], 0
+    cmds, expect = [], []
+    for _ in range(n):
+        bs = rng.choice([4, 16, 128])
+        ops, size, after_read = [], 0, False
+        for _ in range(rng.randint(3, 14)):
+            r = rng.random()
+            if r < 0.3:
+                data = bytes(rng.randrange(256) for _ in range(bs if rng.random() < 0.8 else rng.randint(bs, 2 * bs)))
+                ops.append([3, data]); size += len(data); after_read = False
+            elif r < 0.5 and size >= 0:
+                b = rng.choice([0, bs, size, max(0, size - bs), (size // bs) * bs])
+                b = min(b, size)
+                ops.append([2, bytes(rng.randrange(256) for _ in range(bs)), b]); size = max(size, b + bs); after_read = False
+            elif r < 0.75:
+                ops.append([0, rng.choice([0, bs, size, size + bs, max(0, size - bs), rng.randint(0, size + 1)])]); after_read = True
+            elif r < 0.9 and after_read:
+                ops.append([1])
+            else:
+                ops.append([4]); after_read = False
+        f = tempfile.TemporaryFile()
+        fs, ms = FS.FileStorage(bs, f), FS.MemoryStorage(bs)
+        res = []
+        for st in (fs, ms):
+            rr = []
+            for o in ops:
+                if o[0] == 0:
+                    x = st.read(o[1]); rr.append(bytes(x) if x else None)
+                elif o[0] == 1:
+                    x = st.read(); rr.append(bytes(x) if x else None)
+                elif o[0] == 2:
+                    rr.append([st.write(o[1], o[2])])
+                elif o[0] == 3:
+                    rr.append([st.write(o[1])])
+                else:
+                    rr.append(len(st))
+            res.append(rr)
+        f.seek(0)
+        fdata = f.read()
+        f.close()
+        cmds.append((70, [bs, ops]))
+        expect.append(([res[0], fdata], [res[1], bytes(ms.array)]))
+        cases += 1
+    model = C.run_driver(cmds)
+    for (op, args), (ef, em), m in zip(cmds, expect, model):
+        if not C.eq(ef, em) and not viol:
+            viol.append({"property": prop, "failing_input": True, "what": "FileStorage and MemoryStorage answer differently on a disciplined operation sequence",
+                         "block_size": args[0], "ops": I.fmt(args[1]), "file": I.fmt(ef), "memory": I.fmt(em)})
+        if (not C.eq(ef, m[0]) or not C.eq(em, m[1])) and not viol:
+            viol.append({"property": prop, "failing_input": False,
+                         "broken": "correspondence: storage machines of Storage.v differ from the real back-ends",
+                         "block_size": args[0], "ops": I.fmt(args[1]), "file": I.fmt(ef), "memory": I.fmt(em),
+                         "model_file": I.fmt(m[0]), "model_memory": I.fmt(m[1])})
+    return viol, {"storage_sequences": cases}
+
+
+TWIN_RULE = ("each case: a random history (as in the history campaign) run on one index of the real implementation and, command by "
+             "command, on a twin (%s); every reply and canonicalised answer, the raw bytes of both stores and the file sizes are "
+             "compared between the twins, and the first index is also replayed on the model")
+PROPS["C15"] = {"theorems": ["C15_bisim", "memmap_is_read"],
+                "runner": twin_runner(["memory"], TWIN_RULE % "memory back-end instead of files; plus FileStorage.map() block reads", storage_machines),
+                "assumptions": ["file semantics of a binary rb+/wb+ file as modelled in Storage.v; OS page cache and Python buffering not modelled"]}
+PROPS["C11"] = {"theorems": ["C11_reopen_id", "C11_reopen_persistent", "C11_clear_is_init", "C11_whole_blocks"],
+                "runner": twin_runner(["reopen", "reopen", "clear"],
+                                      TWIN_RULE % "the same history without the close/reopen requests, or - for clear - a freshly created index given the rules of the clear request and the rest of the history"),
+                "assumptions": ["persistence = the bytes of the two files; OS page cache, Python buffering and crash behaviour not modelled (see C18)"]}
+
+
+# ---- C18: torn / truncated write history: fault enumeration on the real implementation --------------
+def _apply_trace(base_t, base_l, trace, k, partial=None):
+    """files after the first k recorded writes (+ `partial` bytes of write k if it is an append)"""
+    t, l = bytearray(base_t), bytearray(base_l)
+    def app(w, nbytes=None):
+        tag, blk, data = w
+        buf = t if tag == "t" else l
+        if nbytes is not None:
+            data = data[:nbytes]
+        if blk is None:
+            buf.extend(data)
+        else:
+            buf[blk:blk + len(data)] = data
+    for w in trace[:k]:
+        app(w)
+    if partial is not None and k < len(trace) and trace[k][1] is None:
+        app(trace[k], partial)
+    return bytes(t), bytes(l)
+
+
+def _observe_cut(folder, dflt, rules):
+    """open the folder with the real code and query it; returns ('refused',) or ('ok', pages, links) or ('fail', what)"""
+    import sys
+    import warnings
+    warnings.simplefilter("ignore")
+    T = sys.modules["traph"]
+    try:
+        t = T.Traph(folder=folder, default_webentity_creation_rule=I.rule_regex(dflt),
+                    webentity_creation_rules=dict((p, I.rule_regex(k)) for p, k in rules))
+    except T.TraphException:
+        return ("refused",)
+    except Exception as e:
+        return ("fail", "opening raised %s: %s" % (type(e).__name__, e))
+    try:
+        pages = {}
+        for node, lru in t.pages_iter():
+            pages[lru] = node.is_crawled()
+        outl, inl = Counter(), Counter()
+        for lru in pages:
+            for a, b, w in t.get_page_links(lru, include_inbound=False, include_internal=True, include_outbound=True):
+                outl[(a, b)] += w
+            for a, b, w in t.get_page_links(lru, include_inbound=True, include_internal=False, include_outbound=False):
+                inl[(a, b)] += w
+            for a, b, w in t.get_page_links(lru, include_inbound=False, include_internal=True, include_outbound=False):
+                pass
+        t.count_pages(); t.count_crawled_pages(); t.count_links(); t.metrics()
+        list(t.lru_trie.dfs_iter())
+        list(t.links_iter(out=True)); list(t.links_iter(out=False))
+        list(t.webentity_prefix_iter())
+        for w_, ps in _wes(t).items():
+            t.get_webentity_pages(w_, ps)
+            t.get_webentity_pagelinks(w_, ps, include_inbound=True, include_internal=True, include_outbound=True)
+            t.get_webentity_most_linked_pages(w_, ps)
+            t.get_webentity_child_webentities(w_, ps)
+            t.paginate_webentity_pages(w_, ps, page_count=2)
+        t.get_webentities_links(out=True); t.get_webentities_links(out=False)
+        t.get_webentities_links_slow(out=True)
+        return ("ok", pages, outl, inl)
+    except Exception as e:
+        import traceback
+        return ("fail", "query raised %s: %s | %s" % (type(e).__name__, e, traceback.format_exc()[-300:]))
+    finally:
+        t.close()
+
+
+def _wes(t):
+    wes = {}
+    for node, lru in t.webentity_prefix_iter():
+        wes.setdefault(node.webentity(), []).append(lru)
+    return wes
+
+
+def _c18_worker(job):
+    seed, cfg = job
+    import os
+    import shutil
+    import tempfile
+    import session as S
+    rng = random.Random(seed)
+    s = S.Session(rng, "f", record=True)
+    s.traced = True
+    out = {"seed": seed, "mismatches": [], "stats": {}, "ncmds": 0, "digest": 0, "nontrivial": True, "cuts": 0,
+           "refused": 0, "opened": 0, "fault": None}
+    scratch = tempfile.mkdtemp(prefix="verif-cut-")
+    try:
+        dflt = rng.choice([0, 1])
+        s.do(1, [dflt, []])
+        base_t, base_l = s.impl.file_bytes("t"), s.impl.file_bytes("l")
+        mixw = dict(G.DEFAULT_MIX, reopen=0, clear=0, add_pages=10, add_links=20, batch=12)
+        for i in range(cfg["nw"]):
+            op, args = G.gen_write(rng, s.tr, mixw)
+            if rng.random() < 0.25 and op == 2:
+                args = [G.gen_lru(rng, weird=0.8), args[1]]     # long stems: multi-block appends
+            s.do(op, args)
+        trace = list(s.impl.trace)
+        rules = list(s.tr.rules)
+        final = _observe_cut(s.impl.folder, dflt, rules) if False else None
+        s.impl.flush()
+        full_t, full_l = s.impl.file_bytes("t"), s.impl.file_bytes("l")
+        chk_t, chk_l = _apply_trace(base_t, base_l, trace, len(trace))
+        if (chk_t, chk_l) != (full_t, full_l):
+            out["fault"] = {"what": "replaying the recorded writes does not reproduce the files (harness assumption broken)"}
+            return out
+        def materialise(tb, lb, drop=None):
+            for name, data in (("lru_trie.dat", tb), ("link_store.dat", lb)):
+                path = os.path.join(scratch, name)
+                if drop == name:
+                    if os.path.exists(path):
+                        os.remove(path)
+                    continue
+                with open(path, "wb") as f:
+                    f.write(data)
+        materialise(full_t, full_l)
+        final = _observe_cut(scratch, dflt, rules)
+        if final[0] != "ok":
+            out["fault"] = {"what": "the completed history itself cannot be reopened and queried: %r" % (final,)}
+            return out
+        _, fpages, fout, fin = final
+        cuts = list(range(len(trace) + 1))
+        if len(cuts) > cfg["maxcuts"]:
+            cuts = sorted(rng.sample(cuts, cfg["maxcuts"]))
+        plan = [(k, None) for k in cuts]
+        for k in cuts:
+            if k < len(trace) and trace[k][1] is None and rng.random() < 0.5:
+                plan.append((k, rng.choice([1, len(trace[k][2]) // 2, len(trace[k][2]) - 1])))
+        plan.append(("missing", "lru_trie.dat"))
+        plan.append(("missing", "link_store.dat"))
+        for k, partial in plan:
+            if k == "missing":
+                tb, lb = _apply_trace(base_t, base_l, trace, len(trace) // 2)
+                materialise(tb, lb, drop=partial)
+                r = _observe_cut(scratch, dflt, rules)
+                out["cuts"] += 1
+                if r[0] != "refused":
+                    out["fault"] = {"cut": "store %s missing" % partial, "what": "a folder with one store missing was not refused: %r" % (r[0],)}
+                    break
+                out["refused"] += 1
+                continue
+            tb, lb = _apply_trace(base_t, base_l, trace, k, partial)
+            materialise(tb, lb)
+            r = _observe_cut(scratch, dflt, rules)
+            out["cuts"] += 1
+            if partial is not None:
+                if r[0] != "refused":
+                    out["fault"] = {"cut": [k, partial], "what": "a partial block was not refused (%s)" % r[0]}
+                    break
+                out["refused"] += 1
+                continue
+            if r[0] == "refused":
+                out["fault"] = {"cut": [k, None], "what": "whole-block cut refused"}
+                break
+            if r[0] == "fail":
+                out["fault"] = {"cut": [k, None], "what": r[1]}
+                break
+            out["opened"] += 1
+            _, pages, outl, inl = r
+            bad = [l for l in pages if l not in fpages or (pages[l] and not fpages[l])]
+            if bad:
+                out["fault"] = {"cut": [k, None], "what": "page reported after the cut but not by the completed history: %r" % bad[0]}
+                break
+            for name, cur, fin_ in (("outbound", outl, fout), ("inbound", inl, fin)):
+                bad = [p for p, w in cur.items() if w > fin_.get(p, 0)]
+                if bad:
+                    out["fault"] = {"cut": [k, None], "what": "%s link %r reported with a weight the completed history does not report" % (name, bad[0])}
+                    break
+            if out["fault"]:
+                break
+        # correspondence: the recorded trace equals the model's program-ordered writes
+        mm = s.finish(bytes_facet=True)
+        for m in mm:
+            j = m.to_json()
+            j["props"] = ["C18"] if m.side == "trace" or m.op in (43, 44) else []
+            if j["props"]:
+                out["mismatches"].append(j)
+        out["ncmds"] = len(s.cmds)
+        out["writes"] = len(trace)
+        out["stats"] = dict(Counter("op%d" % c[0] for c in s.cmds))
+        out["digest"] = hash(tuple(K.ser_cmds([c for c in s.cmds if c[0] in C.WRITE_OPS]))) & 0xFFFFFFFF
+        if out["fault"] or out["mismatches"]:
+            out["script"] = K.ser_cmds(s.cmds)
+        else:
+            out["sample"] = K.ser_cmds(s.cmds[:8])
+        return out
+    except Exception as e:
+        import traceback
+        out["error"] = "%s: %s" % (type(e).__name__, e)
+        out["trace"] = traceback.format_exc()[-800:]
+        return out
+    finally:
+        s.close()
+        shutil.rmtree(scratch, ignore_errors=True)
+
+
+def c18_runner(prop, tier, seed, replay):
+    n = 300 if tier == "thorough" else 32
+    jobs = [(seed * 100003 + i, {"nw": 14 if tier == "thorough" else 9, "maxcuts": 400 if tier == "thorough" else 40})
+            for i in range(n)]
+    results = pool_map(_c18_worker, jobs)
+    violations = []
+    for r in results:
+        if r.get("error"):
+            violations.append({"property": prop, "failing_input": False, "broken": "harness error: " + r["error"],
+                               "trace": r.get("trace"), "seed": r["seed"]})
+            break
+    for r in results:
+        if r.get("fault"):
+            violations.append({"property": prop, "failing_input": True, "seed": r["seed"], "what": r["fault"]["what"],
+                               "cut": r["fault"].get("cut"), "script": r.get("script"),
+                               "how": "run the script on a fresh folder recording every storage write, rebuild both files from the "
+                                      "first <cut> writes, reopen with Traph(folder)"})
+            break
+    if not violations:
+        v, k = classify(prop, results, seed, allow_shrink=False)
+        violations += v
+    cov = coverage(results, "random write histories on a folder with every storage.write recorded (position, bytes); for every cut of "
+                            "the program-ordered write sequence (sampled above a cap in the quick tier), at block granularity and with a "
+                            "byte-partial last append, and with one store removed: both files are rebuilt, reopened with the real "
+                            "Traph and traversed/queried; refusal must be the library's own error and happen iff a block is partial or a "
+                            "store is missing; an opened index must answer every query and report only pages (with crawled marks) and "
+                            "link weights that the completed history reports; the recorded trace is also compared write by write with "
+                            "the model's trace (Traphw.v)")
+    cov["cuts_examined"] = sum(r.get("cuts", 0) for r in results)
+    cov["cuts_refused"] = sum(r.get("refused", 0) for r in results)
+    cov["cuts_opened"] = sum(r.get("opened", 0) for r in results)
+    cov["writes_recorded"] = sum(r.get("writes", 0) for r in results)
+    return {"violations": violations[:3], "known": [], "cov": cov}
+
+
+PROPS["C18"] = {"theorems": ["C18_trace_ok", "C18_cut_no_dangling"], "runner": c18_runner,
+                "assumptions": ["crash model of the property: what persists is a prefix of the program-ordered writes, in-place "
+                                "block rewrites are atomic, both files are cut at the same program point"]}
